@@ -5,7 +5,8 @@ real agent processes per group (4 groups work in parallel).  The reference model
 object X: proxies in the driver / agent 1 / agent 2, pickles in transit, elements of a hosted container C.
 
 Alphabet: pickle(P) (a process pickles one of its proxies: the pickle is "in transit"), unpickle(P) (once), drop(P), store (the
-driver appends a proxy of X to the hosted list C), take (C.pop() -> proxy back in the driver), clear (C.clear() inside the
+driver appends a proxy of X to the hosted list C), take (C.pop() -> proxy back in the driver), mget (the hosted method hands out another managed() proxy of the same
+value), clear (del C[:] inside the
 server), spawn (driver starts a short-lived child process with the proxy as argument; child uses it and exits), exit (agent 2
 exits while holding proxies; it is restarted for the next history), for X in {managed list, shared-memory MemoryBlock, value
 returned by a hosted method through managed()}.
@@ -73,8 +74,10 @@ def total(s):
     return s.D + s.A1 + s.A2 + s.T + s.S
 
 
-def enabled(s):
+def enabled(s, kind='list'):
     ops = []
+    if kind == 'managed' and s.D < CAPN:
+        ops.append(('mget',))      # the hosted method hands out another managed() proxy of the SAME hosted value
     for P in PLACES:
         n = getattr(s, P)
         alive = not (P == 'A2' and s.exited)
@@ -113,6 +116,8 @@ def step(s, op):
         d['S'] += 1
     elif k == 'take':
         d['S'] -= 1
+        d['D'] += 1
+    elif k == 'mget':
         d['D'] += 1
     elif k == 'clear':
         d['S'] = 0
@@ -215,6 +220,11 @@ class Group:
                     names['D'].append(nm)
                 elif k == 'clear':
                     must(D.do('call', 'c', '__delitem__', (slice(None),)))
+                elif k == 'mget':
+                    self.seq += 1
+                    nm = f'x{self.seq}'
+                    D.handles[nm] = holder.get_inner()
+                    names['D'].append(nm)
                 elif k == 'spawn':
                     from mpservice.multiprocessing import Process
                     p = Process(target=child_uses_proxy, args=(D.handles[names['D'][-1]], kind))
@@ -355,7 +365,7 @@ def run(tier, seed, pool, t0):
             for d in range(maxd):
                 jobs = []   # (source state, op, history)
                 for s in frontier:
-                    for op in enabled(s):
+                    for op in enabled(s, kind):
                         jobs.append((s, op, seen[s] + [list(op)]))
                 # spread over the groups
                 chunks = [jobs[i::ngroups] for i in range(ngroups)]
